@@ -21,9 +21,12 @@
 #define DNSE_MAXTCP 6
 
 /* ---- RNG ---- */
-/* mode 0: ids 0x1000, 0x1001, ...;
- * mode 1: every id is offered twice, followed by 0xffff (forces a collision with
- *         the id picked just before, and exercises the 0xffff exclusion). */
+/* mode 0: ids 0x1000, 0x1001, ... (no collisions);
+ * mode 1: 0x2fff, 0x2fff, 0xffff, 0x2ffe, 0x2ffe, 0xffff, ...: every id is offered twice,
+ *         followed by 0xffff (forces a collision with the id picked just before and
+ *         exercises the 0xffff exclusion); descending, so a later request sits in an
+ *         earlier req_heads bucket than its predecessor;
+ * mode 2: like mode 1 but ascending from 0x2000. */
 void dnse_rng_reset(int mode);
 extern unsigned long dnse_rng_id_calls;
 
